@@ -85,3 +85,114 @@ def spec_check(case, out):
         elif value == 0 and t[1] != 0:
             bad.append(("C07", "zero literal gives nonzero", branch, "rounded"))
     return bad
+
+
+# ----------------------------------------------------------------------------- printing (C08)
+
+def glue(s, dps):
+    """the float glue of to_digits_exp (dps already +3 as to_str passes it)"""
+    bitprec = int(dps * math.log(10, 2)) + 10
+    fixprec = max(bitprec - s[2] - s[3], 0)
+    fixdps = int(fixprec / math.log(10, 2) + 0.5)
+    return bitprec, fixdps
+
+
+def near_decimal_tie(rng, prec):
+    """a prec-bit value adjacent to a decimal rounding tie d.ddd5 x 10^e"""
+    n = rng.randint(1, 12)
+    m = rng.randint(10 ** (n - 1), 10 ** n - 1) * 10 + 5
+    e = rng.randint(-30, 30)
+    tie = Fraction(m) * Fraction(10) ** (e - n)
+    rnd = rng.choice("fc")
+    r = round_fraction(tie, prec, rnd)
+    return (r[0], r[1], r[2], r[1].bit_length()), n
+
+
+def c_to_str(rng, fn):
+    k = rng.randrange(6)
+    prec = rng.choice([10, 24, 53, 53, 100, 200, 300])
+    ndig = None
+    if k == 0:
+        s = gen.value(rng, prec, 0.15)
+        if fin(s) and s[1]: s = (s[0], s[1], s[2] % 3000 - 1500, s[3])
+    elif k in (1, 2):
+        s, ndig = near_decimal_tie(rng, prec)
+        if rng.random() < 0.5: s = (1 - s[0], s[1], s[2], s[3])
+    elif k == 3:
+        s = gen.norm(rng.randrange(2), gen.mant(rng, rng.randint(1, prec)), rng.randint(-60, 60))
+    elif k == 4:   # 0.999.. / 9.99.. style carries
+        n = rng.randint(1, 15)
+        v = Fraction(10 ** n - rng.choice([0, 1]), 10 ** rng.randint(0, n + 3)) * (1 - Fraction(1, 2 ** rng.randint(20, 60)))
+        r = round_fraction(v, prec, 'n'); s = (r[0], r[1], r[2], r[1].bit_length())
+    else:
+        s = gen.norm(rng.randrange(2), rng.randint(1, 10 ** 6), rng.randint(-20, 20))
+    dps = ndig if (ndig and rng.random() < 0.7) else rng.choice([0, 1, 2, 3, 5, 6, 10, 15, 17, 30, rng.randint(1, 60)])
+    strip = rng.random() < 0.7
+    show0 = rng.random() < 0.15
+    mn = rng.choice([None, None, -10**9, 0, -3]); mx = rng.choice([None, None, 10**9, 0, 5])
+    kw = {"strip_zeros": strip, "show_zero_exponent": show0}
+    if mn is not None: kw["min_fixed"] = mn
+    if mx is not None: kw["max_fixed"] = mx
+    mn_v = mn if mn is not None else min(-(dps // 3), -5)
+    mx_v = mx if mx is not None else dps
+    margs = None
+    if fin(s) and abs(s[2] + s[3]) <= 3500:
+        bitprec, fixdps = glue(s, dps + 3)
+        margs = list(s) + [dps, int(strip), mn_v, mx_v, int(show0), bitprec, fixdps]
+    elif is_special(s) or not s[1]:
+        margs = list(s) + [dps, int(strip), mn_v, mx_v, int(show0), 0, 0]
+    def thunk():
+        try:
+            return [0] + [ord(c) for c in L.to_str(s, dps, **kw)]
+        except Exception as e:
+            return enc_exc(e)
+    ex = ("tostr", s, dps, dps + 3) if fin(s) and s[1] and abs(s[2]) < 20000 and dps >= 1 else None
+    return Case("to_str", margs, thunk, ex, None, None, rounded=False, ret_mpf=False, desc=("to_str", s, dps, sorted(kw.items())))
+
+
+def c_prec_dps(rng, fn):
+    n = rng.choice([rng.randint(1, 400), rng.randint(1, 20000), rng.randint(1, 10**6)])
+    return Case("prec_dps", [n], lambda: call_impl(lambda: (L.prec_to_dps(n), L.dps_to_prec(n), L.repr_dps(n))), None, rounded=False, ret_mpf=False)
+
+
+GENS["to_str"] = c_to_str
+GENS["prec_dps"] = c_prec_dps
+
+
+def nearest_ndigit(x, n):
+    """set of n-significant-digit decimals nearest to the positive Fraction x (two on an exact tie)"""
+    e = 0
+    while Fraction(10) ** (e + 1) <= x: e += 1
+    while Fraction(10) ** e > x: e -= 1
+    unit = Fraction(10) ** (e - n + 1)
+    q = x / unit
+    fl = q.numerator // q.denominator
+    fr = q - fl
+    if fr < Fraction(1, 2): return {fl * unit}
+    if fr > Fraction(1, 2): return {(fl + 1) * unit}
+    return {fl * unit, (fl + 1) * unit}
+
+
+_old_spec = spec_check
+
+
+def spec_check(case, out):
+    if case.exact is None or case.exact[0] != "tostr":
+        return _old_spec(case, out)
+    bad = []
+    if out[0] != 0:
+        return bad
+    text = "".join(chr(c) for c in out[1:])
+    _, s, dps, dig = case.exact
+    x = V(s)
+    try:
+        float(text)
+        d = Fraction(text)
+    except Exception:
+        return [("C08", "printed literal %r cannot be parsed by float()/Fraction" % text[:40], "parse")]
+    cands = nearest_ndigit(abs(x), dps)
+    if abs(d) not in cands or (d < 0) != (x < 0):
+        bitprec = int(dig * math.log(10, 2)) + 10
+        regime = "bc>bitprec" if s[3] > bitprec else "bc<=bitprec"
+        bad.append(("C08", "nstr/to_str value is not a nearest %d-digit decimal" % dps, regime))
+    return bad
